@@ -785,6 +785,68 @@ class LoopFn(Fn):
         return out
 
 
+class CtorFn(LoopFn):
+    """`fn try_new(low, high) -> Result<UniformInt<T>, UniformError>` / `try_new_inclusive` of one instantiation of `impl_uniform_int!`:
+    `if <ordering of low and high> { return Err(UniformError::EmptyRange); } let range = <wrapping arithmetic>; Ok(UniformInt { base: low, range })`
+    becomes `Option (base, range)` (`none` = the error).  The ordering is the type's own: signed types compare as `BitVec.slt` / `BitVec.sle`."""
+
+    def __init__(self, unit, name, ty, body_toks, suffix):
+        self.u, self.name, self.suffix, self.ty = unit, name, suffix, ty
+        self.params, self.ret = [], None
+        self.stmts, self.tail = SP(body_toks).body()
+        self.env = {"low": ("var", "low", ty), "high": ("var", "high", ty)}
+        self.muts, self.sig = [], []
+
+    def typed(self, e):
+        if e[0] == "mcall" and e[2] in ("wrapping_sub", "wrapping_add"):
+            return self.typed(e[1])
+        return LoopFn.typed(self, e)
+
+    def expr(self, e, expect=None):
+        if e[0] == "num" and expect and expect[0] in ("u", "i"):
+            return "%d#%d" % (e[1], expect[1]), expect
+        if e[0] == "bin" and e[1] in (">=", "<=", "<", ">"):
+            l, lt = self.expr(e[2], self.typed(e[2]) or self.typed(e[3]))
+            r, _ = self.expr(e[3], lt)
+            if lt[0] == "u":
+                return "decide (%s %s %s)" % (l, {">=": "≥", "<=": "≤", "<": "<", ">": ">"}[e[1]], r), ("bool",)
+            a, b, f = {">=": (r, l, "sle"), "<=": (l, r, "sle"), ">": (r, l, "slt"), "<": (l, r, "slt")}[e[1]]
+            return "(BitVec.%s %s %s)" % (f, a, b), ("bool",)
+        if e[0] == "mcall" and e[2] in ("wrapping_sub", "wrapping_add"):
+            l, lt = self.expr(e[1], expect)
+            r, _ = self.expr(e[3][0], lt)
+            return "(%s %s %s)" % (l, "-" if e[2] == "wrapping_sub" else "+", r), lt
+        return LoopFn.expr(self, e, expect)
+
+    def lean(self):
+        st = self.stmts
+        if not (len(st) == 2 and st[0][0] == "if" and st[0][3] is None and st[1][0] == "let" and st[1][1][0] == "pid"):
+            raise TranslateError("%s: expected `if .. { return Err(..) } let range = ..; Ok(..)`" % self.name)
+        blk = st[0][2]
+        ret = blk[1][0] if blk[1] else None
+        if not (ret and ret[0] == "return" and ret[1][0] == "call" and ret[1][1] == "Err" and len(blk[1]) == 1 and blk[2] is None):
+            raise TranslateError("%s: the guarded statement is not `return Err(..)`" % self.name)
+        if "EmptyRange" not in repr(ret[1][2]):
+            raise TranslateError("%s: the error is not UniformError::EmptyRange" % self.name)
+        c, _ = self.expr(st[0][1])
+        self.lines = []
+        t, ty = self.expr(st[1][2], None)
+        if ty[1] != self.ty[1]:
+            raise TranslateError("%s: the range has another width" % self.name)
+        self.env[st[1][1][1]] = ("var", st[1][1][1], ty)
+        tl = self.tail
+        if not (tl and tl[0] == "call" and tl[1] == "Ok" and len(tl[2]) == 1 and tl[2][0][0] == "struct" and tl[2][0][1] == "UniformInt"):
+            raise TranslateError("%s: the result is not Ok(UniformInt { .. })" % self.name)
+        fields = dict(tl[2][0][2])
+        if set(fields) != {"base", "range"}:
+            raise TranslateError("%s: fields %r" % (self.name, sorted(fields)))
+        b, _ = self.expr(fields["base"] if fields["base"] is not None else ("id", "base"), self.ty)
+        r, _ = self.expr(fields["range"] if fields["range"] is not None else ("id", "range"), self.ty)
+        w = self.ty[1]
+        return ("def %s_%s (low high : BitVec %d) : Option (BitVec %d × BitVec %d) :=\n  if %s then none else\n  let %s := %s\n  some (%s, %s)\n" % (
+            self.name, self.suffix, w, w, w, c, st[1][1][1], t, b, r))
+
+
 def lean_ty_i(t):
     return "BitVec %d" % t[1]
 
@@ -845,6 +907,12 @@ def uniform_int(repo):
         tt = ("i", SIGNED[tname]) if tname in SIGNED else ("u", UNSIGNED[tname])
         lf = LoopFn(unit, "sample", [("base", tt), ("range", tt)], tt, exp[b0 + 1:b1], tname)
         out.append(lf.lean())
+        for ctor in ("try_new", "try_new_inclusive"):
+            cf = [n for n in range(len(exp)) if exp[n] == ("id", "fn") and exp[n + 1] == ("id", ctor)]
+            if len(cf) != 1:
+                raise TranslateError("int.rs: %s not found in the macro (or not unique)" % ctor)
+            c0 = next(n for n in range(cf[0], len(exp)) if exp[n] == ("op", "{"))
+            out.append(CtorFn(unit, ctor, tt, exp[c0 + 1:matching(exp, c0)], tname).lean())
         seen.append(tname)
     out.append("end uniform_int\n")
     return "\n".join(out), seen
